@@ -25,61 +25,61 @@ From Coq Require Import ZArith NArith List Bool.
 From PydoctorVerif Require Import Base.ImportSyntax Model.Names.
 Import ListNotations.
 
-Inductive value :=
+Inductive ival :=
 | VNone
 | VBool (b : bool)
 | VInt (z : Z)
 | VStr (p : path)
 | VObjV (o : obj)
-| VList (l : list value).
+| VList (l : list ival).
 
 Definition var := nat.
 
-Inductive expr :=
-| EConst (v : value)
+Inductive iexpr :=
+| EConst (v : ival)
 | EVar (x : var)
 | ESelf                                   (* self *)
 | EName                                   (* the parameter `name` *)
-| ESplit (e : expr)                       (* e.split('.') *)
-| EIndex (l i : expr)                     (* l[i] on a list *)
-| ESliceFrom (l i : expr)                 (* l[i:] *)
-| ELen (l : expr)                         (* len(l) *)
-| ESingleton (e : expr)                   (* [e] *)
-| EConcat (a b : expr)                    (* list + list *)
-| EAddI (a b : expr)                      (* int + int *)
-| EEq (a b : expr) | ENe (a b : expr) | ELt (a b : expr)
-| EIsNone (e : expr) | EIsNotNone (e : expr)
-| ENot (e : expr) | EAnd (a b : expr) | EOr (a b : expr)
-| EIsClass (e : expr)                     (* isinstance(e, Class) *)
-| EL2F (o p : expr)                       (* o._localNameToFullName(p) *)
-| EFind (o p : expr)                      (* o.find(p) *)
-| EMro (o : expr)                         (* o.mro() *)
-| EFullName (o : expr)                    (* o.fullName() *)
-| EParent (o : expr)                      (* o.parent *)
-| EObjFor (e : expr)                      (* self.system.objForFullName(e) *)
-| EInContents (o p : expr)                (* p in o.contents *)
-| EContentsIdx (o p : expr)               (* o.contents[p] *)
-| EContentsGet (o p : expr)               (* o.contents.get(p) *)
-| EInAmap (o p : expr)                    (* p in o._localNameToFullName_map *)
-| EAmapIdx (o p : expr)                   (* o._localNameToFullName_map[p] *)
-| EDot (a b : expr)                       (* f'{a}.{b}' *)
-| EJoin (l : expr).                       (* '.'.join(l) *)
+| ESplit (e : iexpr)                       (* e.split('.') *)
+| EIndex (l i : iexpr)                     (* l[i] on a list *)
+| ESliceFrom (l i : iexpr)                 (* l[i:] *)
+| ELen (l : iexpr)                         (* len(l) *)
+| ESingleton (e : iexpr)                   (* [e] *)
+| EConcat (a b : iexpr)                    (* list + list *)
+| EAddI (a b : iexpr)                      (* int + int *)
+| EEq (a b : iexpr) | ENe (a b : iexpr) | ELt (a b : iexpr)
+| EIsNone (e : iexpr) | EIsNotNone (e : iexpr)
+| ENot (e : iexpr) | EAnd (a b : iexpr) | EOr (a b : iexpr)
+| EIsClass (e : iexpr)                     (* isinstance(e, Class) *)
+| EL2F (o p : iexpr)                       (* o._localNameToFullName(p) *)
+| EFind (o p : iexpr)                      (* o.find(p) *)
+| EMro (o : iexpr)                         (* o.mro() *)
+| EFullName (o : iexpr)                    (* o.fullName() *)
+| EParent (o : iexpr)                      (* o.parent *)
+| EObjFor (e : iexpr)                      (* self.system.objForFullName(e) *)
+| EInContents (o p : iexpr)                (* p in o.contents *)
+| EContentsIdx (o p : iexpr)               (* o.contents[p] *)
+| EContentsGet (o p : iexpr)               (* o.contents.get(p) *)
+| EInAmap (o p : iexpr)                    (* p in o._localNameToFullName_map *)
+| EAmapIdx (o p : iexpr)                   (* o._localNameToFullName_map[p] *)
+| EDot (a b : iexpr)                       (* f'{a}.{b}' *)
+| EJoin (l : iexpr).                       (* '.'.join(l) *)
 
-Inductive stmt :=
+Inductive istmt :=
 | SSkip
-| SSeq (a b : stmt)
-| SAssign (x : var) (e : expr)
-| SIf (e : expr) (a b : stmt)
-| SFor (i : option var) (x : var) (e : expr) (body : stmt)   (* for x in e / for i, x in enumerate(e) *)
-| SWhile (e : expr) (body : stmt)
+| SSeq (a b : istmt)
+| SAssign (x : var) (e : iexpr)
+| SIf (e : iexpr) (a b : istmt)
+| SFor (i : option var) (x : var) (e : iexpr) (body : istmt)   (* for x in e / for i, x in enumerate(e) *)
+| SWhile (e : iexpr) (body : istmt)
 | SBreak | SContinue
-| SReturn (e : expr).
+| SReturn (e : iexpr).
 
-Definition env := var -> option value.
+Definition env := var -> option ival.
 Definition env0 : env := fun _ => None.
-Definition setv (en : env) (x : var) (v : value) : env := fun y => if Nat.eqb x y then Some v else en y.
+Definition setv (en : env) (x : var) (v : ival) : env := fun y => if Nat.eqb x y then Some v else en y.
 
-Definition truthy (v : value) : bool :=
+Definition truthy (v : ival) : bool :=
   match v with
   | VNone => false
   | VBool b => b
@@ -90,7 +90,7 @@ Definition truthy (v : value) : bool :=
   end.
 
 (* == on the values these bodies compare (strings, ints, None, bools); objects are never compared *)
-Definition veq (a b : value) : bool :=
+Definition veq (a b : ival) : bool :=
   match a, b with
   | VNone, VNone => true
   | VBool x, VBool y => Bool.eqb x y
@@ -99,17 +99,17 @@ Definition veq (a b : value) : bool :=
   | _, _ => false
   end.
 
-Definition split_dots (p : path) : list value :=
+Definition split_dots (p : path) : list ival :=
   match p with [] => [VStr []] | _ => map (fun n => VStr [n]) p end.
 
-Fixpoint join_dots (l : list value) : option path :=
+Fixpoint join_dots (l : list ival) : option path :=
   match l with
   | [] => Some []
   | VStr p :: l' => match join_dots l' with Some q => Some (p ++ q) | None => None end
   | _ :: _ => None
   end.
 
-Definition of_opt_obj (o : option obj) : value := match o with Some x => VObjV x | None => VNone end.
+Definition of_opt_obj (o : option obj) : ival := match o with Some x => VObjV x | None => VNone end.
 
 (* the chain Class.mro() returns under single inheritance *)
 Fixpoint mro_chain (fuel : nat) (st : state) (c : obj) : list obj :=
@@ -124,26 +124,26 @@ Fixpoint mro_chain (fuel : nat) (st : state) (c : obj) : list obj :=
                 end
        end.
 
-(* what running a statement yields; RError = a Python exception or a value of the wrong type *)
+(* what running a statement yields; RError = a Python exception or a ival of the wrong type *)
 Inductive res :=
 | RNormal (en : env)
 | RBreak (en : env)
 | RContinue (en : env)
-| RReturn (v : value)
+| RReturn (v : ival)
 | RError
 | ROutOfFuel.
 
 Section Interp.
   Variable st : state.
   Variable self : obj.
-  Variable arg : value.                       (* the argument `name` *)
+  Variable arg : ival.                       (* the argument `name` *)
   Variable call_l2f : obj -> name -> path.
   Variable call_find : obj -> name -> option obj.
   Variable call_mro : obj -> list obj.
 
-  Definition seg (v : value) : option name := match v with VStr [n] => Some n | _ => None end.
+  Definition seg (v : ival) : option name := match v with VStr [n] => Some n | _ => None end.
 
-  Fixpoint eval (en : env) (e : expr) : option value :=
+  Fixpoint eval (en : env) (e : iexpr) : option ival :=
     match e with
     | EConst v => Some v
     | EVar x => en x
@@ -242,7 +242,7 @@ Section Interp.
     end.
 
   (* for [i,] x in <list>: ... ; the list is evaluated once *)
-  Fixpoint for_loop (body : env -> res) (i : option var) (x : var) (k : nat) (l : list value) (en : env) : res :=
+  Fixpoint for_loop (body : env -> res) (i : option var) (x : var) (k : nat) (l : list ival) (en : env) : res :=
     match l with
     | [] => RNormal en
     | v :: l' =>
@@ -255,7 +255,7 @@ Section Interp.
     end.
 
   (* while <cond>: ... ; at most [k] iterations *)
-  Fixpoint while_loop (cond : env -> option value) (body : env -> res) (k : nat) (en : env) : res :=
+  Fixpoint while_loop (cond : env -> option ival) (body : env -> res) (k : nat) (en : env) : res :=
     match k with
     | O => ROutOfFuel
     | S k' =>
@@ -272,7 +272,7 @@ Section Interp.
       end
     end.
 
-  Fixpoint exec (s : stmt) (fuel : nat) (en : env) {struct s} : res :=
+  Fixpoint exec (s : istmt) (fuel : nat) (en : env) {struct s} : res :=
     match s with
     | SSkip => RNormal en
     | SSeq a b => match exec a fuel en with RNormal en' => exec b fuel en' | r => r end
@@ -294,7 +294,7 @@ Section Interp.
     end.
 
   (* a function body: falling off the end returns None *)
-  Definition run (s : stmt) (fuel : nat) : res :=
+  Definition run_body (s : istmt) (fuel : nat) : res :=
     match exec s fuel env0 with
     | RNormal _ => RReturn VNone
     | RBreak _ | RContinue _ => RError
